@@ -184,11 +184,16 @@ class Patched:
         self.T.time = self.old
 
 
+class Boom(Exception):
+    """what the wrapped function raises for the keys in case["raises"]"""
+
+
 def make_function(case, log, fn=0):
     """The wrapped function: logs (key, time), advances the clock by the key's cost, returns what `rets` says for the key
     (default: a fresh truthy object per invocation)."""
     costs = {json.dumps(k): d for k, d in case.get("costs", [])}
     rets = {json.dumps(k): r for k, r in case.get("rets", [])}
+    raises = {json.dumps(k) for k in case.get("raises", [])}
 
     def F(*args, **kwargs):
         key = canon_key(args, kwargs.items())
@@ -196,6 +201,8 @@ def make_function(case, log, fn=0):
         i = len(log)
         log.append((key, CLOCK.now))
         CLOCK.now += costs.get(json.dumps(key), 0)
+        if json.dumps(key) in raises:
+            raise Boom("the wrapped function fails for these arguments")
         if kind == "obj":
             return Res(i, key, fn)
         if kind == "falsy":
@@ -438,6 +445,102 @@ def evaluate_seq(ctx, cases):
             ctx.fail(c_min, oracle_seq(c_min, e2, l2) or clause, impl={"events": e2, "log": l2}, model=m_evs if c_min is c else None)
         elif impl != model_events_as_observed(c, impl, m_evs, m_log) or log != m_log:
             ctx.disagree(c, {"events": impl, "log": log}, {"events": m_evs, "log": m_log})
+
+
+# --------------------------------------------------------------------------- mode "raise": wrapped functions that fail
+#
+# A call whose wrapped function raises produces no value: the exception propagates, nothing is stored, and - this is what
+# the mode is about - nothing that was held is lost: the entries for the max_size most recently used keys THAT HAVE A VALUE
+# are still served afterwards.  Judged against the specification mirror extended by "a failing call = sweep + invocation";
+# the Lean machines have no exceptions, so this mode is oracle + mirror only.
+
+def mirror_raise(case):
+    now, log, evs = T0, [], []
+    costs = {json.dumps(k): d for k, d in case.get("costs", [])}
+    raises = {json.dumps(k) for k in case.get("raises", [])}
+    valid, single = case.get("valid"), case["cache"] == "single"
+    held = []
+    for op in case["ops"]:
+        if op[0] == "adv":
+            now += op[1]
+            continue
+        key = op_key(op)
+        held = [h for h in held if fresh(valid, now, log[h[1]][1])]
+        hit = [h for h in held if h[0] == key]
+        if hit:
+            held = [h for h in held if h[0] != key] + [hit[0]]
+            evs.append([hit[0][1], False, now])
+            if single:
+                held = [hit[0]]
+            continue
+        ret = len(log)
+        log.append([key, now])
+        t_call = now
+        now += costs.get(json.dumps(key), 0)
+        if json.dumps(key) in raises:
+            evs.append([["err", "Boom"], True, t_call])
+            continue  # nothing stored, nothing evicted
+        evs.append([ret, True, t_call])
+        held = [[key, ret]] if single else (held + [[key, ret]])[-case["max_size"]:]
+    return evs, log
+
+
+def valid_raise(c):
+    try:
+        return c.get("mode") == "raise" and valid_seq(dict(c, mode="seq")) and isinstance(c.get("raises"), list)
+    except Exception:
+        return False
+
+
+def judge_raise(case):
+    evs, log = run_seq_impl(case)
+    mir, mlog = mirror_raise(case)
+    raises = {json.dumps(k) for k in case.get("raises", [])}
+    for e, m in zip(evs, mir):
+        failing = json.dumps(e["key"]) in raises
+        if e["out"][0] == "err":
+            if not (failing and e["out"][1] == "Boom" and m[1]):
+                return "call raised %s" % e["out"][1], evs
+            continue
+        if failing:
+            return "returned a value although the wrapped function failed for these arguments", evs
+        if e["invoked"] and not m[1]:
+            return "wrapped function invoked although an unexpired entry for equal arguments is held", evs
+        if not e["invoked"] and m[1]:
+            return "wrapped function not invoked although no unexpired entry is held", evs
+        if e["out"][0] == "ok" and e["out"][1] != m[0]:
+            return ("result computed for different arguments" if 0 <= e["out"][1] < len(log) and log[e["out"][1]][0] != e["key"]
+                    else "hit returned a value that is not the held entry's"), evs
+    return None, evs
+
+
+def evaluate_raise(ctx, cases):
+    for c in cases:
+        clause, evs = judge_raise(c)
+        ctx.case(c, sum(1 for op in c["ops"] if op[0] == "call") >= 2)
+        ctx.hit("raise:" + c["cache"])
+        ctx.hit("raise:failing-calls:%d" % min(3, sum(1 for e in evs if e["out"][0] == "err")))
+        if clause is not None:
+            def still(c2):
+                return valid_raise(c2) and _norm(judge_raise(c2)[0]) == _norm(clause)
+
+            c_min = shrink(c, still) if not ctx.replaying else c
+            cl2, e2 = judge_raise(c_min)
+            ctx.fail(c_min, cl2 or clause, impl={"events": e2}, model=mirror_raise(c_min)[0])
+
+
+def exhaustive_raise(length):
+    x, y, z = P("x"), P("y"), P("z")
+    alpha = [x, y, z, ["adv", VALID + 1]]
+    for cache, sizes in (("single", (1,)), ("lru", (1, 2))):
+        for m in sizes:
+            for hist in itertools.product(alpha, repeat=length):
+                if not any(op == z for op in hist):
+                    continue
+                c = {"mode": "raise", "cache": cache, "valid": VALID, "ops": [list(op) for op in hist], "raises": [op_key(z)]}
+                if cache == "lru":
+                    c["max_size"] = m
+                yield c
 
 
 # --------------------------------------------------------------------------- the ways a decorator is applied
@@ -1740,6 +1843,10 @@ def run(ctx):
             n, ok = _batched(ctx, exhaustive_seq(fam, length, thorough, ret=ret), evaluate_seq)
             scope.append("%s, results %s: length %d (%d histories)" % (fam, ret if isinstance(ret, str) else "none/zero/object", length, n))
             complete = complete and ok
+    # 2b'. wrapped functions that FAIL for some arguments: the failure propagates and costs no held entry
+    rcases = list(exhaustive_raise(ctx.scale(4, 5)))
+    evaluate_raise(ctx, rcases)
+    scope.append("failing wrapped function (x, y, z fails, advance past the validity; both caches, max_size 1-2): length %d (%d histories)" % (ctx.scale(4, 5), len(rcases)))
     ctx.note("exhaustive_scope_seq", scope)
     phase["seq_exhaustive_s"] = round(_time.time() - t_, 1)
     # 2c. the ways a decorator is applied: several wrappers, each must have its own entries
@@ -1849,6 +1956,8 @@ def replay(ctx, case):
         evaluate_apply(ctx, [case])
     elif mode == "mutate":
         evaluate_mutate(ctx, [case])
+    elif mode == "raise":
+        evaluate_raise(ctx, [case])
     elif mode == "conc":
         evaluate_conc(ctx, [case], deg[case["cache"]], info)
     else:
